@@ -85,6 +85,42 @@ class FieldV:
         self.idx, self.ty, self.variant = idx, ty, variant
 
 
+class PosV:
+    """A token position / index in one-hot form: bits[i] <=> value == i, i in 0..N; N = "none / end".
+    Exactly one bit is true by construction. Keeps the encoding propositional (no integer ite nests)."""
+    __slots__ = ("bits",)
+
+    def __init__(self, bits):
+        self.bits = bits
+
+    @staticmethod
+    def const(p, N):
+        return PosV([i == p for i in range(N + 1)])
+
+    def succ(self):
+        n = len(self.bits)
+        return PosV([False] + [self.bits[i] for i in range(n - 2)] + [Or(self.bits[n - 2], self.bits[n - 1])])
+
+    def eq(self, other):
+        return Or(*[And(a, b) for a, b in zip(self.bits, other.bits)])
+
+    def le_const(self, i):
+        return Or(*self.bits[:i + 1])
+
+
+class ConsumedV:
+    """`consumed` returned by extract_field_content: adding it to the position gives `newpos`."""
+    __slots__ = ("newpos",)
+
+    def __init__(self, newpos):
+        self.newpos = newpos
+
+
+class LenV:
+    """input.len() (= n in token units)"""
+    pass
+
+
 class TokRef:
     __slots__ = ("idx",)
 
@@ -295,12 +331,22 @@ def merge(c, a, b):
         return EmitV(a.items[:k] + ea + eb)
     if isinstance(a, StructV) and isinstance(b, StructV) and a.name == b.name:
         return StructV(a.name, {k: merge(c, a.fields[k], b.fields[k]) for k in a.fields})
+    if isinstance(a, PosV) and isinstance(b, int) and not isinstance(b, bool):
+        b = PosV.const(b, len(a.bits) - 1)
+    if isinstance(b, PosV) and isinstance(a, int) and not isinstance(a, bool):
+        a = PosV.const(a, len(b.bits) - 1)
+    if isinstance(a, PosV) and isinstance(b, PosV):
+        return PosV([If(c, x, y) if x is not y else x for x, y in zip(a.bits, b.bits)])
     if isinstance(a, FieldV) and isinstance(b, FieldV) and a.ty == b.ty:
-        return FieldV(If(c, a.idx, b.idx), a.ty, merge(c, a.variant, b.variant))
+        return FieldV(merge(c, a.idx, b.idx), a.ty, merge(c, a.variant, b.variant))
     if isinstance(a, TokRef) and isinstance(b, TokRef):
-        return TokRef(If(c, a.idx, b.idx))
+        return TokRef(merge(c, a.idx, b.idx))
     if isinstance(a, RemV) and isinstance(b, RemV):
-        return RemV(If(c, a.pos, b.pos))
+        return RemV(merge(c, a.pos, b.pos))
+    if isinstance(a, ConsumedV) and isinstance(b, ConsumedV):
+        return ConsumedV(merge(c, a.newpos, b.newpos))
+    if isinstance(a, LenV) and isinstance(b, LenV):
+        return a
     if isinstance(a, SetV) and isinstance(b, SetV):
         keys = set(a.m) | set(b.m)
         return SetV({k: If(c, a.m.get(k, False), b.m.get(k, False)) for k in keys})
@@ -457,9 +503,8 @@ class Machine:
         self.N = N
         self.unroll = unroll if unroll is not None else N + 1
         self.cap_scale = cap_scale
-        self.n = IntVar("n")
-        self.tagf = z3.Function("tag", z3.IntSort(), z3.IntSort())
-        self.tag = [self.tagf(z3.IntVal(i)) for i in range(N)]
+        self.n = z3.Int("n")
+        self.tag = [z3.Int("tag_%d" % i) for i in range(N)]
         self.strtab = ["<UNK>"]
         self.strid = {}
         self.okf = {}
@@ -485,22 +530,35 @@ class Machine:
         cs = [self.n >= 0, self.n <= self.N]
         for t in self.tag:
             cs += [t >= 0, t < len(self.strtab)]
+        for ty, vs in self.heurvar.items():
+            for v in vs:
+                cs += [v >= 0, v < max(1, len(self.prog.enums[ty]["variants"]))]
         return cs + self.side
 
-    def tag_at(self, pos):
-        """tag at symbolic position (Int term), -1 if pos >= n."""
-        if not is_sym(pos):
-            return z3.If(pos < self.n, self.tag[pos], IntV(-1)) if 0 <= pos < self.N else IntV(-1)
-        return z3.If(z3.And(pos >= 0, pos < self.n), self.tagf(pos), IntV(-1))
+    def topos(self, pos):
+        if isinstance(pos, PosV):
+            return pos
+        if isinstance(pos, int) and not isinstance(pos, bool):
+            return PosV.const(min(max(pos, 0), self.N), self.N)
+        raise Unsupported("position is not a token position: %r" % (pos,))
 
-    def tag_is(self, pos, s):
-        """token at `pos` exists and has tag s (s: str or Alt of str)."""
+    def at_end(self, pos):
+        """pos >= n"""
+        pos = self.topos(pos)
+        return Or(pos.bits[self.N], *[And(pos.bits[i], self.n <= i) for i in range(self.N)])
+
+    def tag_is_at_index(self, i, s):
         conds = []
         for g, v in alt_of(s):
             if not isinstance(v, str):
                 raise Unsupported("tag comparison with non-string %r" % (v,))
-            conds.append(And(g, self.tag_at(pos) == self.sid(v)))
+            conds.append(And(g, self.tag[i] == self.sid(v)))
         return Or(*conds)
+
+    def tag_is(self, pos, s):
+        """token at `pos` exists and has tag s (s: str or Alt of str)."""
+        pos = self.topos(pos)
+        return Or(*[And(pos.bits[i], i < self.n, self.tag_is_at_index(i, s)) for i in range(self.N)])
 
     def ok(self, ty, idx):
         """ok_T(idx): content of token idx is accepted by T::parse — one free Bool per (type, position)."""
@@ -508,50 +566,28 @@ class Machine:
         if ty not in self.okf:
             self.okf[ty] = [z3.Bool("ok_%s_%d" % (ty, i)) for i in range(self.N)]
         vs = self.okf[ty]
-        if not is_sym(idx):
-            return vs[idx] if 0 <= idx < self.N else False
-        t = z3.BoolVal(False)
-        for i in reversed(range(self.N)):
-            t = z3.If(idx == i, vs[i], t)
-        return t
+        idx = self.topos(idx)
+        return Or(*[And(idx.bits[i], vs[i]) for i in range(self.N)])
 
-    def heur(self, ty, idx):
-        """Variant index picked by the content-based (letter-less) parser of enum T for token idx."""
+    def heur_is(self, ty, idx, k):
+        """the content-based (letter-less) parser of enum T picks variant number k for token idx"""
         if ty not in self.heurvar:
-            self.heurvar[ty] = [IntVar("heur_%s_%d" % (ty, i)) for i in range(self.N)]
+            self.heurvar[ty] = [z3.Int("heur_%s_%d" % (ty, i)) for i in range(self.N)]
         vs = self.heurvar[ty]
-        if not is_sym(idx):
-            return vs[idx] if 0 <= idx < self.N else IntV(0)
-        t = IntV(0)
-        for i in reversed(range(self.N)):
-            t = z3.If(idx == i, vs[i], t)
-        return t
+        idx = self.topos(idx)
+        return Or(*[And(idx.bits[i], vs[i] == k) for i in range(self.N)])
 
     def first_from(self, pos, s):
-        """(found, j): first token index j >= pos with tag_j == s. j is a fresh variable defined by
-        side constraints (functional: exactly one value satisfies them for every input)."""
-        self.fresh += 1
-        j = z3.Int("j%d" % self.fresh)
-        found = z3.Bool("found%d" % self.fresh)
-        P = pos if is_sym(pos) else z3.IntVal(pos)
-        cs = []
-        hits = []
+        """(found, j): first token index j >= pos with tag_j == s (one-hot; bit N = not found)."""
+        pos = self.topos(pos)
+        bits = []
+        earlier = False
         for i in range(self.N):
-            hit = B(And(i < self.n, P <= i, self.tag_is_at_index(i, s)))
-            hits.append(hit)
-            # j == i  <=>  hit_i and no earlier hit
-            cs.append((j == i) == z3.And(hit, *[z3.Not(h) for h in hits[:-1]]))
-        cs.append(found == z3.Or(*hits) if hits else found == False)
-        cs.append(z3.Implies(z3.Not(found), j == -1))
-        cs.append(z3.And(j >= -1, j < self.N))
-        self.side += cs
-        return found, j
-
-    def tag_is_at_index(self, i, s):
-        conds = []
-        for g, v in alt_of(s):
-            conds.append(And(g, self.tag[i] == self.sid(v)))
-        return Or(*conds)
+            hit = And(pos.le_const(i), i < self.n, self.tag_is_at_index(i, s))
+            bits.append(And(hit, Not(earlier)))
+            earlier = Or(earlier, hit)
+        bits.append(Not(earlier))
+        return earlier, PosV(bits)
 
     # -- calling -------------------------------------------------------------------------------
     def call_fn(self, fn, args, guard, self_ty=None, generics=None, self_val=None):
@@ -870,9 +906,22 @@ class Machine:
         a = self.eval(e["left"], fr, guard)
         b = self.eval(e["right"], fr, guard)
         if op in ("+=", "-="):
-            nv = (a + b) if op == "+=" else (a - b)
+            if isinstance(b, ConsumedV) and op == "+=":
+                nv = b.newpos
+            elif isinstance(a, PosV):
+                raise Unsupported("arithmetic on a token position")
+            else:
+                nv = (a + b) if op == "+=" else (a - b)
             self.assign(e["left"], nv, fr, guard)
             return UNIT
+        if isinstance(b, LenV) and op in (">=", "<"):
+            r = self.at_end(a)
+            return r if op == ">=" else Not(r)
+        if isinstance(a, PosV) or isinstance(b, PosV):
+            if op in ("==", "!=") and isinstance(a, PosV) and isinstance(b, PosV):
+                r = a.eq(b)
+                return r if op == "==" else Not(r)
+            raise Unsupported("operator %s on a token position" % op)
         # cap scaling: `<vec>.len() <cmp> <literal >= 10>`
         if self.cap_scale is not None and op in (">=", "<", ">", "<=") and isinstance(b, int) and not isinstance(b, bool) \
                 and b >= 10 and e["left"]["k"] == "mcall" and e["left"]["method"] == "len":
@@ -1084,7 +1133,7 @@ class Machine:
                     body_fn(f2, g2)
                     pos_after = self.cur_pos(f2)
                     if pos_before is not None and pos_after is not None:
-                        self.progress_obl.append((And(self.live(f2, g2), pos_after == pos_before), line))
+                        self.progress_obl.append((And(self.live(f2, g2), self.topos(pos_after).eq(self.topos(pos_before))), line))
                     f2.cont = False
                     return UNIT
                 self.branch(c, f, g, th, lambda f2, g2: self._set_brk(f2))
@@ -1412,17 +1461,17 @@ class Machine:
             if meth in ("trim", "trim_start", "trim_end", "trim_start_matches", "trim_end_matches"):
                 return recv
             if meth == "is_empty":
-                return recv.pos >= self.n
+                return self.at_end(recv.pos)
             if meth == "starts_with":
                 conds = []
                 for g, s in alt_of(args[0]):
                     if not (isinstance(s, str) and len(s) >= 3 and s[0] == ":" and s[-1] == ":" and ":" not in s[1:-1]):
                         raise Unsupported("starts_with(%r) on remaining text is not a field marker" % (s,))
-                    conds.append(And(g, self.tag_at(recv.pos) == self.sid(s[1:-1])))
+                    conds.append(And(g, self.tag_is(recv.pos, s[1:-1])))
                 return Or(*conds)
         if isinstance(recv, InputV):
             if meth == "len":
-                return self.n
+                return LenV()
         if isinstance(recv, str):
             if meth == "is_empty":
                 return recv == ""
@@ -1479,7 +1528,7 @@ class Machine:
         if not isinstance(rem, RemV):
             raise Unsupported("extract_field_content on %s" % type(rem).__name__)
         found, j = self.first_from(rem.pos, tag)
-        return Opt(found, TupleV((TokRef(j), j + 1 - rem.pos)))
+        return Opt(found, TupleV((TokRef(j), ConsumedV(j.succ()))))
 
     def field_parse(self, ty, name, args, fr, guard):
         content = args[0]
@@ -1491,13 +1540,27 @@ class Machine:
                 val, _ = self.call_fn(m[0], args, self.live(fr, guard), self_ty=ty)
                 return val
             # trait default: Self::parse(value)
-        # uninterpreted parse
+        # enum `parse` (no option letter): run its body when it only dispatches on the member parsers;
+        # content-inspecting heuristics are left uninterpreted below
+        if ty in self.prog.enums and name == "parse":
+            m = self.prog.fns.get((ty, "parse", True))
+            if m is not None:
+                snap = (len(self.unwind_obl), len(self.progress_obl), len(self.heur_used), len(self.side), self.depth)
+                try:
+                    val, _ = self.call_fn(m[0], [content], self.live(fr, guard), self_ty=ty)
+                    if isinstance(val, Res):
+                        return val
+                    raise Unsupported("enum parse did not evaluate to a Result")
+                except Unsupported:
+                    del self.unwind_obl[snap[0]:]
+                    del self.progress_obl[snap[1]:]
+                    del self.heur_used[snap[2]:]
+                    del self.side[snap[3]:]
+                    self.depth = snap[4]
         if ty in self.prog.enums:
             variants = [v["name"] for v in self.prog.enums[ty]["variants"]]
-            hv = self.heur(ty, content.idx)
             self.fresh += 1
-            self.heur_used.append((self.live(fr, guard), ty, content.idx))
-            var = mk_alt([(hv == k, v) for k, v in enumerate(variants[:-1])] + [
-                (z3.And(*[hv != k for k in range(len(variants) - 1)]) if len(variants) > 1 else True, variants[-1])])
+            var = mk_alt([(self.heur_is(ty, content.idx, k), v) for k, v in enumerate(variants)])
+            self.heur_used.append((self.live(fr, guard), ty, content.idx, var))
             return Res(self.ok(ty, content.idx), FieldV(content.idx, ty, var), Opaque("field-parse-error"))
         return Res(self.ok(ty, content.idx), FieldV(content.idx, ty, None), Opaque("field-parse-error"))
